@@ -127,7 +127,7 @@ def cases(tier, seed):
 
 def targets(tier):
     k = 1 if tier == "quick" else 10
-    return {"faults_injected": 1700 * k, "faults_rejected_no_harm_checked": 1500 * k, "faults_valid_by_table": 40 * k,
+    return {"faults_injected": 1400 * k, "faults_rejected_no_harm_checked": 1200 * k, "faults_valid_by_table": 40 * k,
             "container_twin_runs": 300 * k, "table_sequences": 1500, "later_outputs_compared": 50000 * k,
             "rejections_right_after_drift": 50 * k}
 
